@@ -231,4 +231,112 @@ theorem Inv.nestedStmtsWith {n p} (h : Inv n p) (ss : Stmts) (closing : Pos) (lo
   have := h.incLevel
   (repeat' split) <;> exact this
 
+
+theorem Stmts.wf_cons {s : Stmt} {r : Stmts} (h : (Stmts.cons s r).wf = true) : s.wf = true ∧ r.wf = true := by
+  unfold Stmts.wf at h
+  simpa using h
+
+mutual
+theorem Inv.stmt : ∀ (s : Stmt) (n : Nat) (p : P), Inv n p → s.wf = true → Inv n (p.stmt s)
+  | .mk pos semi neg bg cmd, n, p, h, hw => by
+    have hc : cmd.wf = true := by
+      unfold Stmt.wf at hw
+      simp only [Bool.and_eq_true] at hw
+      exact hw.1
+    unfold P.stmt
+    dsimp only
+    apply Inv.decLevel
+    have h1 : Inv n (P.command (if neg = true then P.spacedString { p with wroteSemi := false } [33] else { p with wroteSemi := false }) cmd) := by
+      apply Inv.command cmd
+      · split
+        · exact Inv.spacedString (p := { p with wroteSemi := false }) h _
+        · exact h
+      · exact hc
+    have h2 := h1.incLevel
+    (repeat' split) <;> first | exact h2 | exact h2.bslashNewl | exact h2.space
+theorem Inv.command : ∀ (c : Cmd) (n : Nat) (p : P), Inv n p → c.wf = true → Inv n (p.command c)
+  | .call args, n, p, h, hw => by
+    unfold Cmd.wf at hw
+    cases args with
+    | nil => simp at hw
+    | cons w rest =>
+      simp only [Bool.and_eq_true, List.all_eq_true] at hw
+      obtain ⟨hall, _⟩ := hw
+      obtain ⟨pos, hpos⟩ := Word.wf_pos (hall w (by simp))
+      unfold P.command
+      simp only [hpos]
+      have h0 : Inv n ((p.advanceLine pos.line).spacePad.incLevel.decLevel) :=
+        (((h.advanceLine pos.line).spacePad).incLevel).decLevel
+      have hw1 : ∀ x ∈ [w], x.wf = true := by
+        intro x hx
+        simp only [List.mem_singleton] at hx
+        exact hx ▸ hall w (by simp)
+      have hr : ∀ x ∈ rest, x.wf = true := fun x hx => hall x (by simp [hx])
+      split
+      · exact h0.wordJoin [w] hw1
+      · exact (h0.wordJoin [w] hw1).wordJoin rest hr
+  | .block lb rb ss, n, p, h, hw => by
+    unfold Cmd.wf at hw
+    simp only [Bool.and_eq_true] at hw
+    unfold P.command
+    dsimp only
+    apply Inv.semiRsrv
+    apply Inv.nestedStmtsWith
+    · exact ((h.advanceLine lb.line).spacePad)
+    · intro m q hq
+      exact Inv.stmtListLoop ss m q true hq hw.2
+  | .subshell lp rp ss, n, p, h, hw => by
+    unfold Cmd.wf at hw
+    simp only [Bool.and_eq_true] at hw
+    unfold P.command
+    dsimp only
+    apply Inv.rightParen
+    apply Inv.closingParenSpace
+    apply Inv.nestedStmtsWith
+    · apply Inv.spacePad
+      have h0 : Inv n (((p.advanceLine lp.line).spacePad).tok [40]) := ((h.advanceLine lp.line).spacePad)
+      (repeat' split) <;> exact h0
+    · intro m q hq
+      exact Inv.stmtListLoop ss m q true hq hw.2
+  | .binary opPos op x y, n, p, h, hw => by
+    unfold Cmd.wf at hw
+    simp only [Bool.and_eq_true] at hw
+    obtain ⟨⟨⟨⟨hx, hy⟩, _⟩, _⟩, _⟩ := hw
+    unfold P.command
+    dsimp only
+    have h1 : Inv n (((p.advanceLine x.pos.line).spacePad).stmt x) :=
+      Inv.stmt x n _ ((h.advanceLine x.pos.line).spacePad) hx
+    split
+    · exact Inv.stmt y n _ ((h1.spacedToken _).advanceLine _) hy
+    · have hy' : ∀ m q, Inv m q → Inv m (q.stmt y) := fun m q hq => Inv.stmt y m q hq hy
+      split
+      · -- indent
+        apply Inv.decLevel
+        apply hy'
+        have h2 := h1.incLevel
+        split
+        · exact ((h2.bslashNewl).spacedToken _)
+        · exact (((h2.spacedToken _).advanceLine _).newline 0).indent
+      · apply hy'
+        split
+        · exact ((h1.bslashNewl).spacedToken _)
+        · exact (((h1.spacedToken _).advanceLine _).newline 0).indent
+theorem Inv.stmtListLoop : ∀ (ss : Stmts) (n : Nat) (p : P) (first : Bool), Inv n p → ss.wf = true →
+    Inv n (p.stmtListLoop first ss)
+  | .nil, n, p, first, h, _ => by unfold P.stmtListLoop; exact h
+  | .cons s rest, n, p, first, h, hw => by
+    obtain ⟨hs, hr⟩ := Stmts.wf_cons hw
+    unfold P.stmtListLoop
+    dsimp only
+    apply Inv.stmtListLoop rest n _ false _ hr
+    apply Inv.stmt s n _ _ hs
+    apply Inv.advanceLine
+    have h0 : Inv n (if (!first && p.o.singleLine && p.wantNewline && !p.wroteSemi) = true
+        then { (p.tok [59]) with wantSpace := WS.required } else p) := by
+      split <;> exact h
+    split
+    · exact h0.newlines _
+    · exact h0
+end
+
 end ShVerif.L4
